@@ -69,7 +69,8 @@ def _bins(ck, D, N, power, binning):
     nb = N // 2 + 1
     out = enc.outs[0]
     if tuple(out.shape) != (1, nb):
-        ck.add(f"{tag}/shape", False, [], family="get_spectrum: bins 0..N//2")
+        ck.add(f"{tag}/shape", False, [], family="get_spectrum: bins 0..N//2",
+               replay=lambda m: (lambda sh: {"reproduced": tuple(sh) != (1, nb), "detail": f"get_spectrum returns shape {tuple(sh)} for a (1,{','.join([str(N)] * D)}) state, documented (1, {nb})"})(ex.get_spectrum(jnp.ones((1,) + (N,) * D), power=power, radial_binning=binning).shape))
         return
     # Ackermannised moduli of the code: map stored index -> (radicand, s)
     sq = enc.interp.sqrt_facts
